@@ -133,6 +133,10 @@ def gen_scripts(prop, tier, rng):
             for kind in gen.KINDS:
                 S.append(gen.valid_history(rng, kind, 25))
                 S.append(gen.valid_history(rng, kind, 20, small=True))
+        # first chunk at the extreme ratio with a whole-number need
+        for _ in range(3 * n):
+            for kind in gen.ASYNC:
+                S.append(gen.extreme_bound_history(rng, kind))
         # setter calls that supersede a pending request
         for _ in range(2 * n):
             for kind in gen.ASYNC:
